@@ -155,3 +155,13 @@ Definition tcp_prefix_timeout_at (now start query_start lifetime : N) : res N :=
   tcp_read_timeout (now - std_clock_tcp_prefix start query_start) lifetime.
 Definition tcp_body_timeout_at (now start query_start lifetime : N) : res N :=
   tcp_read_timeout (now - std_clock_tcp_body start query_start) lifetime.
+
+(* ---------------------------------------------------------------- time budget (async clients) *)
+(* The async template bounds the whole call with `timeout(D_call, query_raw_impl())` and every
+   attempt's receive loop with `timeout(D_attempt, udp_receive_loop())` (tokio/async-std: the
+   `timeout` function; smol: the `.timeout()` adaptor).  Which duration goes where is a translated
+   leaf; the combinators themselves are trusted: armed with D at t they resolve by t + D. *)
+Definition async_call_duration (smol : bool) (cfg_lifetime cfg_qt : N) : N :=
+  (if smol then async_outer_timeout_smol else async_outer_timeout_tokio) (async_outer_timeout_src cfg_lifetime cfg_qt) 0.
+Definition async_attempt_duration (smol : bool) (cfg_lifetime cfg_qt : N) : N :=
+  (if smol then async_attempt_timeout_smol else async_attempt_timeout_tokio) 0 (async_attempt_timeout_src cfg_lifetime cfg_qt).
